@@ -462,7 +462,7 @@ sub0_ctx_subscribe(sub0_ctx *ctx, const void *buf, size_t sz)
 		if (topic->len != sz) {
 			continue;
 		}
-		if (memcmp(topic->buf, buf, sz) == 0) {
+		if ((sz == 0) || (memcmp(topic->buf, buf, sz) == 0)) {
 			// Already have it.
 			nni_mtx_unlock(&sock->lk);
 			return (NNG_OK);
@@ -498,7 +498,7 @@ sub0_ctx_unsubscribe(sub0_ctx *ctx, const void *buf, size_t sz)
 		if (topic->len != sz) {
 			continue;
 		}
-		if (memcmp(topic->buf, buf, sz) == 0) {
+		if ((sz == 0) || (memcmp(topic->buf, buf, sz) == 0)) {
 			// Matched!
 			break;
 		}
